@@ -268,22 +268,79 @@ pub fn parse_kind(s: &Sx) -> (u8, bool) {
     }
 }
 
+/// FNV-1a of the printed S-expression: a deterministic, case-dependent choice (replays reproduce it)
+pub fn text_hash(s: &Sx) -> u64 {
+    let mut h: u64 = 0xcbf29ce484222325;
+    for b in s.to_string().bytes() {
+        h ^= b as u64;
+        h = h.wrapping_mul(0x100000001b3);
+    }
+    h
+}
+/// the k-th permutation of 0..n
+pub fn perm(n: usize, k: u64) -> Vec<usize> {
+    let mut pool: Vec<usize> = (0..n).collect();
+    let mut k = k;
+    let mut out = Vec::new();
+    while !pool.is_empty() {
+        let i = (k % pool.len() as u64) as usize;
+        k /= pool.len() as u64;
+        out.push(pool.remove(i));
+    }
+    out
+}
+
 pub fn parse_cond(s: &Sx) -> Box<dyn InputCondition> {
     let (h, a) = s.app();
     match h {
         "c_press" => Box::new(Press::new(a[0].f())),
         "c_just_press" => Box::new(JustPress::new(a[0].f())),
         "c_release" => Box::new(Release::new(a[0].f())),
-        "c_hold" => Box::new(Hold::new(a[0].f()).one_shot(a[1].boolean()).with_actuation(a[2].f()).relative_speed(a[3].boolean())),
-        "c_hold_and_release" => Box::new(HoldAndRelease::new(a[0].f()).with_actuation(a[1].f()).relative_speed(a[2].boolean())),
-        "c_tap" => Box::new(Tap::new(a[0].f()).with_actuation(a[1].f()).relative_speed(a[2].boolean())),
-        "c_pulse" => Box::new(
-            Pulse::new(a[0].f())
-                .with_trigger_limit(a[1].int() as u32)
-                .trigger_on_start(a[2].boolean())
-                .with_actuation(a[3].f())
-                .relative_speed(a[4].boolean()),
-        ),
+        // the builder methods are applied in an order derived from the text of the condition: every order must
+        // configure the same condition
+        "c_hold" => {
+            let mut c = Hold::new(a[0].f());
+            for i in perm(3, text_hash(s)) {
+                c = match i {
+                    0 => c.one_shot(a[1].boolean()),
+                    1 => c.with_actuation(a[2].f()),
+                    _ => c.relative_speed(a[3].boolean()),
+                };
+            }
+            Box::new(c)
+        }
+        "c_hold_and_release" => {
+            let mut c = HoldAndRelease::new(a[0].f());
+            for i in perm(2, text_hash(s)) {
+                c = match i {
+                    0 => c.with_actuation(a[1].f()),
+                    _ => c.relative_speed(a[2].boolean()),
+                };
+            }
+            Box::new(c)
+        }
+        "c_tap" => {
+            let mut c = Tap::new(a[0].f());
+            for i in perm(2, text_hash(s)) {
+                c = match i {
+                    0 => c.with_actuation(a[1].f()),
+                    _ => c.relative_speed(a[2].boolean()),
+                };
+            }
+            Box::new(c)
+        }
+        "c_pulse" => {
+            let mut c = Pulse::new(a[0].f());
+            for i in perm(4, text_hash(s)) {
+                c = match i {
+                    0 => c.with_trigger_limit(a[1].int() as u32),
+                    1 => c.trigger_on_start(a[2].boolean()),
+                    2 => c.with_actuation(a[3].f()),
+                    _ => c.relative_speed(a[4].boolean()),
+                };
+            }
+            Box::new(c)
+        }
         "c_chord" => with_action!(a[0].int() as usize, A => Box::new(Chord::<A>::default())),
         "c_block_by" => {
             let eo = a[1].boolean();
@@ -352,7 +409,14 @@ pub fn parse_mod(s: &Sx) -> Box<dyn InputModifier> {
                 "Axial" => DeadZoneKind::Axial,
                 o => panic!("bad dz kind {o}"),
             };
-            Box::new(DeadZone::new(kind).with_lower_threshold(a[1].f()).with_upper_threshold(a[2].f()))
+            let mut m = DeadZone::new(kind);
+            for i in perm(2, text_hash(s)) {
+                m = match i {
+                    0 => m.with_lower_threshold(a[1].f()),
+                    _ => m.with_upper_threshold(a[2].f()),
+                };
+            }
+            Box::new(m)
         }
         "m_exp" => Box::new(ExponentialCurve::new(Vec3::new(a[0].f(), a[1].f(), a[2].f()))),
         "m_delta_scale" => Box::new(DeltaScale),
